@@ -422,7 +422,7 @@ func ConcProfileFor(name string, seed int64) ConcProfile {
 		p.Cols = []ColDesc{{"k", "key", "", "key"}, {"a", "int", "add", numRepr()}}
 		p.Keyed = true
 		p.InitRows = r.Intn(3)
-		p.Prologue = ""
+		p.Prologue = []string{"", "block1"}[r.Intn(2)]
 		p.Writers = 2 + r.Intn(2)
 		p.Txns = 1 + r.Intn(2)
 		p.PRollback, p.PFailIns = 0.1, 0.1
